@@ -1473,11 +1473,20 @@ impl<T: PPGEvaluatorStrategy> PPGEvaluator<T> {
                                 self.gen
                             );
                         }
+                        JobState::Ephemeral(JobStateEphemeral::ReadyButDelayed) => {
+                            // not yet offered - and now it can't be needed anymore
+                            set_node_state!(
+                                j,
+                                JobState::Ephemeral(JobStateEphemeral::FinishedUpstreamFailure),
+                                self.gen
+                            );
+                        }
                         _ => {
-                            return Err(PPGEvaluatorError::InternalError(format!(
-                                "unexpected was 7 {:?}",
-                                j
-                            )))
+                            // A skipped (validated) Output job is turned into an upstream
+                            // failure when one of its ephemeral upstreams fails later on.
+                            // By then its own downstreams may already be ready to run,
+                            // running or finished. They can no longer be affected.
+                            propagate = false;
                         }
                     }
                     if propagate {
